@@ -87,18 +87,20 @@ def handle (f : String) (j : Json) : Option Json :=
       | .error e => jerr (errName e))
   | "fb_hyp" =>
     -- the decidable hypotheses of the two round-trip theorems on the record the url parses to:
-    -- [reparsable, fieldsOk, findingShape]
+    -- [reparsable, charsOk]
     some (match parse_facebook_url (s j "url") (fieldBool j "rel") with
-      | .ok (some r) => jlist [jbool (reparsable r), jbool (fieldsOk r), jbool (findingShape r)]
+      | .ok (some r) => jlist [jbool (reparsable r), jbool (charsOk r)]
       | .ok none => .null
       | .error e => jerr (errName e))
   | "fb_re" =>
     -- the regenerated patterns run by the generic interpreter, next to the hand-written
-    -- `fixMistakes` (three-way comparison with the real `re` in the harness)
+    -- `fixMistakes` and `squeezeSlashes` (three-way comparison with the real `re` in the harness)
     let x := s j "s"
     some (Json.mkObj [
       ("mistakes_hand", out (fixMistakes x)),
       ("mistakes_generic", out (reSub Gen.C19Facebook.MISTAKES_RE ['&'] x)),
+      ("squeeze_hand", out (UrlParts.squeezeSlashes x)),
+      ("squeeze_generic", out (reSub Gen.C19Facebook.SLASH_SQUEEZE_RE ['/'] x)),
       ("mobile", out (reSub Gen.C19Facebook.MOBILE_REPLACE_RE (lit "m.facebook.") x)),
       ("domain", jbool (reSearch Gen.C19Facebook.FACEBOOK_DOMAIN_RE x)),
       ("extract", jspan (Re.search Gen.C19Facebook.URL_EXTRACT_RE x))])
